@@ -214,8 +214,13 @@ enum Subj {
 
 fn dem_at(desc: &Value, k: usize) -> i64 {
     const D: [i64; 8] = [4, 8, 2, 0, 6, -2, 1, 5];
+    // a unit with a raised baseline transient limit is driven from cold with low demands, so that the baseline
+    // (pwr_out_max_init), not the ramp from the last brake power, is what binds in the steps after a checkpoint
+    const LOW: [i64; 8] = [1, 0, 2, 1, 0, 1, 3, 0];
+    let low = desc["kind"].as_str().map(|k| k.ends_with(".init40")).unwrap_or(false);
     match desc.get("dem").and_then(|x| x.as_array()) {
-        Some(a) if !a.is_empty() => a[k % a.len()].as_i64().unwrap_or(4),
+        Some(a) if !a.is_empty() && !low => a[k % a.len()].as_i64().unwrap_or(4),
+        _ if low => LOW[k % LOW.len()],
         _ => D[k % D.len()],
     }
 }
@@ -263,6 +268,11 @@ fn loco_getters(l: &Locomotive) -> Node {
         getter(l.mu().map(|m| m.map(|x| x.value))),
         getter(l.mass().map(|m| m.map(|x| x.value))),
         Node::B(l.assert_limits),
+        // the fuel converter's rating and baseline transient limit (public fields)
+        match l.fuel_converter() {
+            Some(fc) => Node::Seq(vec![Node::F(fbits(fc.pwr_out_max.value)), Node::F(fbits(fc.pwr_out_max_init.value))]),
+            None => Node::Null,
+        },
     ])
 }
 fn consist_getters(c: &Consist) -> Node {
@@ -596,6 +606,44 @@ fn build_subject_uncached(desc: &Value) -> anyhow::Result<Subj> {
         "ReversibleEnergyStorage" => Subj::Comp(bel(&mut lp)?, Comp::Res),
         "Locomotive.conv" => Subj::Loco(conv(&mut lp)?),
         "Locomotive.bel" => Subj::Loco(bel(&mut lp)?),
+        "FuelConverter.init40" | "Locomotive.init40" | "LocomotiveSimulation.init40" | "Consist.init40" => {
+            // baseline transient limit raised to 40 % of the rating (unusual but valid; 0 -> 10 % in every default)
+            let mk = |lp: &mut Value| -> anyhow::Result<Locomotive> {
+                let mut l = if real {
+                    let mut l = Locomotive::default();
+                    let mut fc = l.fuel_converter().cloned().ok_or_else(|| anyhow::anyhow!("no fc"))?;
+                    fc.pwr_out_max_init = fc.pwr_out_max * 0.4;
+                    l.set_fuel_converter(fc)?;
+                    l
+                } else {
+                    lp["kind"] = json!("conv");
+                    lp["fc_init"] = json!(0.4 * lp.get("rfc").and_then(|x| x.as_f64()).unwrap_or(4096.0));
+                    build::loco(lp)?
+                };
+                l.set_save_interval(Some(1));
+                Ok(l)
+            };
+            match kind {
+                "FuelConverter.init40" => Subj::Comp(mk(&mut lp)?, Comp::Fc),
+                "Locomotive.init40" => Subj::Loco(mk(&mut lp)?),
+                "LocomotiveSimulation.init40" => {
+                    let pt = if real {
+                        // low power first, then a jump to 1 MW that only the raised baseline allows
+                        let pw: Vec<f64> = (0..=nmax).map(|k| if k % 16 < 12 { 5.0e4 } else { 1.0e6 }).collect();
+                        PowerTrace::new((0..=nmax).map(|k| k as f64).collect(), pw, vec![Some(true); nmax + 1])
+                    } else {
+                        pwr_trace(desc, nmax, 16.0)
+                    };
+                    Subj::LocoSim(LocomotiveSimulation::new(mk(&mut lp)?, pt, Some(1)))
+                }
+                _ => {
+                    let mut b = lp.clone();
+                    b["kind"] = json!("bel");
+                    let bel = if real { Locomotive::default_battery_electric_loco() } else { build::loco(&b)? };
+                    Subj::Con(build::consist_of(vec![mk(&mut lp)?, bel], "RESGreedy", Some(1))?)
+                }
+            }
+        }
         "Locomotive.relaxed" => {
             // advertised non-default setting: demands above the transient limit are tolerated
             let mut l = conv(&mut lp)?;
@@ -838,7 +886,8 @@ fn exec(desc: &Value, tr: &mut Tracer) -> anyhow::Result<()> {
 // ---------------------------------------------------------------------------------------------
 // generator: pinned (kind x format) cases through files, realistic-scale cases, long random schedules
 
-const DEEP: [&str; 15] = [
+const DEEP: [&str; 16] = [
+    "Locomotive.init40",
     "Locomotive.relaxed",
     "FuelConverter",
     "Generator",
@@ -855,7 +904,10 @@ const DEEP: [&str; 15] = [
     "ElectricDrivetrain.bel",
     "LocomotiveSimulation.bel",
 ];
-const SHALLOW: [&str; 17] = [
+const SHALLOW: [&str; 20] = [
+    "FuelConverter.init40",
+    "LocomotiveSimulation.init40",
+    "Consist.init40",
     "Locomotive.mu",
     "LocomotiveSimulation.relaxed",
     "SpeedLimitTrainSim.mu",
@@ -874,7 +926,10 @@ const SHALLOW: [&str; 17] = [
     "TimedLinkPath",
     "SetSpeedTrainSim.default",
 ];
-const REAL: [&str; 19] = [
+const REAL: [&str; 22] = [
+    "FuelConverter.init40",
+    "Locomotive.init40",
+    "LocomotiveSimulation.init40",
     "Locomotive.mu",
     "LocomotiveSimulation.relaxed",
     "SpeedLimitTrainSim.mu",
